@@ -18,7 +18,7 @@ RULE = ("spanning_cidr on sequences of 0..6 elements [ver, value, prefixlen, for
 EXACT = ("spanning_cidr",)
 
 # element forms (how the adapter presents (ver, v, p) to spanning_cidr)
-F_NET, F_CIDR_STR, F_ADDR_OBJ, F_ADDR_STR = 0, 1, 2, 3
+F_NET, F_CIDR_STR, F_ADDR_OBJ, F_ADDR_STR, F_MASK_STR = 0, 1, 2, 3, 4
 
 
 def _addr_str(ver, v):
@@ -37,6 +37,8 @@ def _present(item):
         return n
     if form == F_CIDR_STR:
         return "%s/%d" % (_addr_str(ver, v), p)
+    if form == F_MASK_STR:      # address/netmask notation (all-ones and all-zeros masks included)
+        return "%s/%s" % (_addr_str(ver, v), _addr_str(ver, 2 ** w - 2 ** (w - p)))
     assert p == w, "address forms need a host prefix"
     if form == F_ADDR_OBJ:
         return netaddr.IPAddress(v, ver)
@@ -116,8 +118,8 @@ ORACLE = {"spanning_cidr": orc_spanning_cidr}
 def _form(rng, ver, p, objects_only=False):
     w = gens.W[ver]
     if p == w:
-        return rng.choice((F_NET, F_ADDR_OBJ) if objects_only else (F_NET, F_CIDR_STR, F_ADDR_OBJ, F_ADDR_STR))
-    return F_NET if objects_only else rng.choice((F_NET, F_NET, F_CIDR_STR))
+        return rng.choice((F_NET, F_ADDR_OBJ) if objects_only else (F_NET, F_CIDR_STR, F_ADDR_OBJ, F_ADDR_STR, F_MASK_STR))
+    return F_NET if objects_only else rng.choice((F_NET, F_NET, F_CIDR_STR, F_MASK_STR))
 
 
 def _item(rng, blk, host_bits=True, objects_only=False):
@@ -304,3 +306,37 @@ def cases(rng, tier):
         yield ("spanning_cidr", [items, cont()], "random")
         if k <= 3:
             yield ("spanning_cidr", [items[::-1], cont()], "random")
+
+
+# ---- object-lifecycle checks (harness/lifecycle.py): objects with a history behave like fresh ones, results do not
+# alias operands, failed mutators change nothing.  The functional model has no hidden state: its answer is "no discrepancy".
+from harness import lifecycle as _life
+IMPL.update(_life.IMPL)
+ORACLE.update(_life.ORACLE)
+EXACT = tuple(EXACT) + ("life",)
+RULE = RULE + " | lifecycle: observe-mutate-observe vs a fresh object, aliasing of results, failure atomicity (net)"
+_cases_without_life = cases
+
+
+def cases(rng, tier):
+    yield from _cases_without_life(rng, tier)
+    yield from _life.cases(rng, tier, {'net'})
+
+
+# ---- pairs whose span just crosses an aligned boundary (lo aligned to 2^k, hi a little past lo + 2^k), every k
+_cases_without_cross = cases
+
+
+def cases(rng, tier):
+    yield from _cases_without_cross(rng, tier)
+    for ver in (4, 6):
+        w = gens.W[ver]
+        mx = 2 ** w - 1
+        for k in range(0, w):
+            for _ in range(1 if tier == "quick" else 10):
+                base = (rng.getrandbits(w) >> (k + 1) << (k + 1)) if k + 1 < w else 0
+                d = rng.choice([0, 1, 2, rng.randrange(1 << min(k, 20)) if k else 0])
+                hi = min(mx, base + (1 << k) + d)
+                p2 = w - min(k, rng.choice([0, 1, 2]))
+                yield ("spanning_cidr", [[[ver, base, w - k, F_NET], [ver, hi, p2, F_NET]], 0], "cross")
+                yield ("spanning_cidr", [[[ver, hi, w, F_NET], [ver, base, w, F_NET]], 0], "cross")
